@@ -138,7 +138,9 @@ def impl(line):
     op, d, p, n = line.split()
     buf = unhx(d); p = int(p); n = int(n)
     if op == "xbits":
-        return f"ok {packets._extract_bits(buf, p, n)}"
+        # the shift / mask helper itself, where the module has it under this name
+        f = getattr(packets, "_extract_bits", None)
+        return "n/a" if f is None else f"ok {f(buf, p, n)}"
     r = packets.RawPacketData(buf)
     r.pos = p
     if op == "rint":
